@@ -17,6 +17,8 @@ meta.json}`; `tools_revalidate_seeded.sh` re-confirms all of them against the cu
 after every `fix:` commit), `tools_matrix.sh` applies each to /repo (`git -C /repo apply`), runs the
 quick checks named, undoes it (`git -C /repo checkout -- .`) and records the outcome in
 `seeded/MATRIX.txt` and `meta.json.detected_by`. The first column of "checks" is the change's own property.
+The matrix below is for the default seed; the same run with `VERIF_SEED=1` (`seeded/MATRIX_seed1.txt`, `MATRIX_OUT=` mode of the
+tool) gives the same picture: 128 of 129 caught by their own property's quick check, the exception again C07b.
 
 | id | change | needs to manifest | checks (quick tier) | first signature reported |
 |---|---|---|---|---|
